@@ -171,7 +171,9 @@ class Request(HTTPConnection):
                 return json.loads(
                     data.decode(self.content_type.options.get("charset", "utf8"))
                 )
-            except json.JSONDecodeError as exc:
+            except (ValueError, LookupError, RecursionError) as exc:
+                # JSONDecodeError, undecodable bytes, an unknown charset, an
+                # integer too long to convert, nesting too deep
                 raise MalformedJSON(str(exc)) from None
 
         raise UnsupportedMediaType("application/json")
